@@ -114,6 +114,12 @@ class StmtMixin:
       if len(v.items) != n:
         self.raise_('ValueError', VStr('unpack mismatch'))
       return v.items
+    if isinstance(v, (VMList, VSeq)):
+      # a sequence of symbolic length unpacked into n targets: ValueError unless it has exactly n items
+      sq = v.seq if isinstance(v, VMList) else v
+      if self.branch(sq.n != n):
+        self.raise_('ValueError', VStr('unpack mismatch'))
+      return [self.wrap(sq.kind, z3.Select(sq.arr, i)) for i in range(n)]
     if isinstance(v, VOpaque) and n == 1:
       return [VOpaque(item_of(v.t, 0))]          # a one-element tuple of outputs
     if isinstance(v, VOpaque) and n == 2:
@@ -294,6 +300,13 @@ class StmtMixin:
   def havoc_loop(self, node, env, spec, extra_names=()):
     names, attrs, mutated = self.assigned_names(node.body + node.orelse)
     names |= set(extra_names)
+    amap = self.__dict__.get('alpha_map') or {}
+    if spec and amap:
+      spec = dict(spec)
+      if spec.get('havoc'):
+        spec['havoc'] = [amap.get(n, n) for n in spec['havoc']]
+      if spec.get('retype'):
+        spec['retype'] = {amap.get(n, n): t for n, t in spec['retype'].items()}
     if spec:
       names |= set(spec.get('havoc', ()))
       attrs |= set(spec.get('havoc_attrs', ()))
